@@ -457,3 +457,12 @@ def canary(env):
     xp, Pp = f(x, y, u, P)
     xm, Pm, xs, Ps = kalman(T, sysm, x, P, u, y, Qn, Rn)
     env.eq('posterior covariance equals the prior covariance', Pp, Pm)
+
+
+# "EKF equals the recursion applied to the linearisation at the prior mean": the linearisation EKF uses is what NLS.set_refpoint / A / B / C / D /
+# c1 / c2 provide at the reference point (x, u, t) it is handed - also for an explicit, fractional time stamp.  That contract is stated in
+# c15_dynamics.py and discharged in this check too.
+from contracts import c15_dynamics as _c15
+obligation('C13.callee.NLS.linearisation', functions=['pypose.module.dynamics:NLS.set_refpoint', 'pypose.module.dynamics:NLS.A', 'pypose.module.dynamics:NLS.C',
+                                                      'pypose.module.dynamics:NLS.c1', 'pypose.module.dynamics:NLS.c2'], tol=1e-6,
+           note='callee contract of EKF.forward (same contract function as C15.NLS.family)')(_c15.nls_family)
